@@ -234,6 +234,9 @@ class DirWorld:
         self.waptop = self.w.config.get("protocols.wap.WAPProtocol", "waptop")
         self.case = None
         self.active = False
+        self.kidpath = {}
+        self.dirfs = self.w.root
+        self.dirty = False
         envsub.ENV.listdir_order = self._on_listdir
         envsub.ENV.stat_fault = self._on_stat
         envsub.ENV.open_hook = self._on_open
@@ -309,8 +312,10 @@ class DirWorld:
         return order
 
     def _touch(self, path, op):
+        if not self.active:
+            return None
         k = self.kidpath.get(path)
-        if k is None or not self.active:
+        if k is None:
             return None
         n = k["name"]
         c = self.count[n] = self.count.get(n, 0) + 1
@@ -579,15 +584,34 @@ def blame(r, case, hung):
 
 
 # ---------------------------------------------------------------------------------------------------
-def pool_map(fn, items, init_fn, procs=None):
+def _call(a):
+    fn, item = a
+    try:
+        return ("ok", fn(item))
+    except BaseException:           # a dying worker would hang the pool: report instead
+        import traceback
+        return ("err", traceback.format_exc()[-3000:])
+
+
+def pool_map(fn, items, init_fn, procs=None, timeout=3000):
     import multiprocessing as mp
     procs = procs or int(os.environ.get("VERIF_PROCS") or 16)
     if len(items) <= 2:
         init_fn()
-        return [fn(x) for x in items]
-    ctx = mp.get_context("fork")
-    with ctx.Pool(procs, initializer=init_fn) as pool:
-        return pool.map(fn, items, chunksize=max(1, len(items) // (procs * 8) or 1))
+        res = [_call((fn, x)) for x in items]
+    else:
+        ctx = mp.get_context("fork")
+        with ctx.Pool(procs, initializer=init_fn) as pool:
+            try:
+                res = pool.map_async(_call, [(fn, x) for x in items],
+                                     chunksize=max(1, len(items) // (procs * 8) or 1)).get(timeout=timeout)
+            except mp.TimeoutError:
+                pool.terminate()
+                raise core.MachineryError("worker pool timed out after %ds" % timeout)
+    bad = [r[1] for r in res if r[0] != "ok"]
+    if bad:
+        raise core.MachineryError("worker failed:\n" + bad[0])
+    return [r[1] for r in res]
 
 
 def permutations(names):
